@@ -84,6 +84,28 @@ theorem str_route (env : Env) (s : List Char) : outcome env (.str s) = .ok (.str
 /-- a blank slot -/
 theorem slot_route (env : Env) : outcome env .blankSlot = .ok .blank := rfl
 
+
+/-! ### routes through another builtin: `IF(TRUE,x,0)` and `CHOOSE(1,x)` hand `x` on -/
+
+theorem outcome_TRUE {env : Env} (hT : env.vars "TRUE".toList = none) :
+    outcome env (.var ["TRUE".toList]) = .ok (.bool true) := by
+  unfold outcome
+  rw [evalExpr]
+  have hp : predefined "TRUE".toList = some (.bool true) := by rfl
+  simp only [List.headD_cons, callVariable, hT, hp]
+
+/-- `IF(TRUE,x,0)` on a parser whose host redefined neither `IF` nor `TRUE`: the value of `x` -/
+theorem if_route {env : Env} (hc : env.custom "IF".toList = none) (hT : env.vars "TRUE".toList = none)
+    {x : Expr} {v : Value} (hx : outcome env x = .ok v) (hno : isNoOpinion v = false) :
+    outcome env (.call "IF".toList .flat [.var ["TRUE".toList], x, .num (.int ['0'])] []) = .ok v := by
+  have hargs : outcomes env [.var ["TRUE".toList], x, .num (.int ['0'])] =
+      .ok [.bool true, v, .num (.int 0)] := by
+    rw [outcomes_cons, outcome_TRUE hT, outcomes_two hx (outcome_num_int env ['0'])]
+    rfl
+  have h := outcome_builtin_call (b := Fn.Logic.IF) hc (by decide +kernel) (by rfl) hargs
+    (by simpa [Fn.Logic.IF, Fn.pyTruthy] using hno)
+  simpa [Fn.Logic.IF, Fn.pyTruthy] using h
+
 /-- the record of a formula is determined by the outcome of its tree -/
 theorem finish_congr {o o' : Except Exn Value} (h : o = o') : finish o = finish o' := by rw [h]
 
